@@ -111,10 +111,16 @@ def entails(ex, s, cond):
     if c is not None:
         return c
     lim = getattr(ex.spec, 'max_solver_checks', None)
+    tlim = getattr(ex.spec, 'max_struct_seconds', None)
+    # a sidecar may bound the work of a structured-input contract: when the code under analysis no longer follows
+    # the structure (e.g. after a change in an inlined callee) every step degenerates into slow solver queries
     if lim is not None and ex.solver_checks > lim:
-        # a sidecar may bound the work of a structured-input contract: when the code under analysis no longer follows
-        # the structure (e.g. after a change in an inlined callee) every step degenerates into solver queries
         raise Unsupported(f'more than {lim} solver checks on a structured-input contract (structure lost)')
+    if tlim is not None and getattr(ex, 'entry_state', None) is not None:
+        import time
+        t0 = ex.entry_state.heap.setdefault('__bs_t0__', time.time())
+        if time.time() - t0 > tlim:
+            raise Unsupported(f'more than {tlim}s on a structured-input contract (structure lost)')
     sol = z3.Solver()
     sol.set('timeout', 1500)
     sol.add(*relevant(s.pc, cond))
@@ -369,3 +375,80 @@ def try_method(ex, s, meth, r, args, kw, node):
             items = [VBytes(join(ps[:f[0]])), VBytes(join(ps[f[0] + 1:]))]
         return [(s, s.alloc(VList(items)))]
     return None
+
+
+# ------------------------------------------------------------------ length-arithmetic feasibility (opt-in)
+_ARITH_KINDS = None
+
+
+def _arith_kinds():
+    global _ARITH_KINDS
+    if _ARITH_KINDS is None:
+        _ARITH_KINDS = {z3.Z3_OP_AND, z3.Z3_OP_OR, z3.Z3_OP_NOT, z3.Z3_OP_IMPLIES, z3.Z3_OP_ITE, z3.Z3_OP_TRUE,
+                        z3.Z3_OP_FALSE, z3.Z3_OP_EQ, z3.Z3_OP_DISTINCT, z3.Z3_OP_LE, z3.Z3_OP_GE, z3.Z3_OP_LT,
+                        z3.Z3_OP_GT, z3.Z3_OP_ADD, z3.Z3_OP_SUB, z3.Z3_OP_MUL, z3.Z3_OP_UMINUS, z3.Z3_OP_IDIV,
+                        z3.Z3_OP_MOD, z3.Z3_OP_ANUM, z3.Z3_OP_IFF, z3.Z3_OP_XOR}
+    return _ARITH_KINDS
+
+
+def _abstract(t, atoms):
+    """Int/Bool term -> the same term with every non-arithmetic Int-valued subterm (Length(..), unbe(..), nth..)
+    replaced by an integer variable (one per distinct subterm); None when a Bool-valued non-arithmetic atom
+    (sequence equality, Contains, quantifier ...) occurs"""
+    if z3.is_quantifier(t) or not z3.is_app(t):
+        return None
+    srt = t.sort()
+    k = t.decl().kind()
+    if srt == IntS:
+        if z3.is_int_value(t):
+            return t
+        if k in (z3.Z3_OP_ADD, z3.Z3_OP_SUB, z3.Z3_OP_MUL, z3.Z3_OP_UMINUS, z3.Z3_OP_IDIV, z3.Z3_OP_MOD, z3.Z3_OP_ITE):
+            cs = [_abstract(c, atoms) for c in t.children()]
+            if any(c is None for c in cs):
+                return None
+            return t.decl()(*cs)
+        if k == z3.Z3_OP_SEQ_LENGTH:
+            # Length(a ++ b) = Length(a) + Length(b), Length(unit) = 1, Length(be(w, _)) = w
+            t2 = norm_len(t)
+            if not (z3.is_app(t2) and t2.decl().kind() == z3.Z3_OP_SEQ_LENGTH):
+                return _abstract(t2, atoms)
+            t = t2
+        key = t.get_id()
+        if key not in atoms:
+            v = z3.Int(f'labs!{len(atoms)}')
+            atoms[key] = (t, v, k == z3.Z3_OP_SEQ_LENGTH)
+        return atoms[key][1]
+    if srt == BoolS:
+        if k == z3.Z3_OP_UNINTERPRETED and t.num_args() == 0:
+            return t
+        if k not in _arith_kinds():
+            return None
+        if k in (z3.Z3_OP_EQ, z3.Z3_OP_DISTINCT) and t.arg(0).sort() not in (IntS, BoolS):
+            return None
+        cs = [_abstract(c, atoms) for c in t.children()]
+        if any(c is None for c in cs):
+            return None
+        return t.decl()(*cs)
+    return None
+
+
+def arith_feasible(st, cond):
+    """Feasibility of a pure length-arithmetic condition by integer abstraction of the path condition (conjuncts
+    that are not arithmetic over such atoms are dropped = weakened).  unsat -> infeasible (sound: the abstraction is
+    weaker); sat -> reported feasible (always sound for path exploration).  None: condition not of this shape."""
+    from .engine import relevant
+    atoms = {}
+    c = _abstract(cond, atoms)
+    if c is None:
+        return None
+    sol = z3.Solver()
+    sol.set('timeout', 2000)
+    for z in relevant(st.pc, cond):
+        a = _abstract(z, atoms)
+        if a is not None:
+            sol.add(a)
+    for _t, v, is_len in atoms.values():
+        if is_len:
+            sol.add(v >= 0)
+    sol.add(c)
+    return sol.check() != z3.unsat
